@@ -35,8 +35,9 @@ COMPARE = re.compile(r"cmp::(PartialEq|PartialOrd|Ord|Eq)(<.*>)?>::(eq|ne|lt|le|
 INDEX = re.compile(r"ops::Index(Mut)?<.*>>::index(_mut)?$|::index$|::index_mut$|::get_unchecked(_mut)?$")
 
 
-def path_of(place):
-    """MIR projection list -> path tuple (derefs and opaque casts dropped)"""
+def path_of(place, consts=None):
+    """MIR projection list -> path tuple (derefs and opaque casts dropped); variable indices whose index local is a
+    single-assignment constant become constant indices"""
     out = []
     for e in place["p"]:
         if e == "*" or isinstance(e, str):
@@ -48,7 +49,10 @@ def path_of(place):
         elif "ci" in e:
             out.append("[%s%d]" % ("-" if e["fe"] else "", e["ci"]))
         elif "ix" in e:
-            out.append("[*]")
+            if consts is not None and e["ix"] in consts:
+                out.append("[%d]" % consts[e["ix"]])
+            else:
+                out.append("[*]")
         elif "sub" in e:
             out.append("[*]")
     return tuple(out)
@@ -74,9 +78,8 @@ def strip_transparent(path):
             else:
                 i += 1
             continue
-        if e.startswith("[") and out and out[-1].startswith("["):
-            # nested index paths collapse (buffers of buffers are not distinguished)
-            out[-1] = "[*]"
+        if e == "[*]" and out and out[-1] == "[*]":
+            # nested variable-index paths collapse (buffers of buffers are not distinguished)
             i += 1
             continue
         out.append(e)
@@ -107,19 +110,36 @@ class FnInfo:
         self.defs = defaultdict(list)  # local -> [(path, kind, payload)]
         self.ref_of = {}  # temp local -> (place) when single def is a ref/rawptr of a place
         b = self.b
+        self.consts = {}
+        cnt = defaultdict(int)
+        cval = {}
+        for blk in b.blocks:
+            for st in blk["st"]:
+                if st["k"] == "assign":
+                    l = st["p"]["l"]
+                    cnt[l] += 1
+                    if not st["p"]["p"] and st["rv"]["k"] == "use":
+                        c = op_const(st["rv"]["o"])
+                        if c is not None and "int" in c:
+                            cval[l] = c["int"]
+            if blk["term"]["k"] == "call":
+                cnt[blk["term"]["dest"]["l"]] += 1
+        for l, v in cval.items():
+            if cnt[l] == 1 and l > b.argc:
+                self.consts[l] = v
         for bi, blk in enumerate(b.blocks):
             if blk["cleanup"]:
                 continue
             for st in blk["st"]:
                 if st["k"] == "assign":
                     p = st["p"]
-                    self.defs[p["l"]].append((path_of(p), "rv", st["rv"], self._through_deref(p), bi))
+                    self.defs[p["l"]].append((path_of(p, self.consts), "rv", st["rv"], self._through_deref(p), bi))
                 elif st["k"] == "setdiscr":
                     pass
             t = blk["term"]
             if t["k"] == "call":
                 p = t["dest"]
-                self.defs[p["l"]].append((path_of(p), "call", t, self._through_deref(p), bi))
+                self.defs[p["l"]].append((path_of(p, self.consts), "call", t, self._through_deref(p), bi))
         # reference temps
         for l, ds in self.defs.items():
             if len(ds) == 1 and ds[0][1] == "rv" and not ds[0][0]:
@@ -182,9 +202,9 @@ class Flow:
             if pl is not None:
                 base = self.pointee(fid, pl["l"], depth + 1) if (pl["p"] and pl["p"][0] == "*") or (not pl["p"] and info._is_refty(pl["l"])) else None
                 if base is not None:
-                    res = (base[0], base[1] + path_of(pl))
+                    res = (base[0], base[1] + path_of(pl, info.consts))
                 else:
-                    res = (pl["l"], path_of(pl))
+                    res = (pl["l"], path_of(pl, info.consts))
             else:
                 ds = info.defs.get(l, [])
                 if len(ds) == 1 and ds[0][1] == "call" and not ds[0][0] and info._is_refty(l):
@@ -199,9 +219,9 @@ class Flow:
                                 extra = ("[%d]" % c["int"],) if c and "int" in c else ("[*]",)
                             base = self.pointee(fid, a["l"], depth + 1)
                             if base is not None:
-                                res = (base[0], base[1] + path_of(a) + extra)
+                                res = (base[0], base[1] + path_of(a, info.consts) + extra)
                             elif not info._is_refty(a["l"]):
-                                res = (a["l"], path_of(a) + extra)
+                                res = (a["l"], path_of(a, info.consts) + extra)
         self._alias[key] = res
         return res
 
@@ -253,7 +273,7 @@ class Flow:
     # queries
     # ---------------------------------------------------------------------------------------------
     def deps_place(self, fid, place, rest=()):
-        return self.deps(fid, place["l"], path_of(place) + tuple(rest))
+        return self.deps(fid, place["l"], path_of(place, self.info(fid).consts) + tuple(rest))
 
     def deps_operand(self, fid, o, rest=()):
         pl = op_place(o)
@@ -331,7 +351,7 @@ class Flow:
     def _q_operand(self, fid, o, rest, acc):
         pl = op_place(o)
         if pl is not None:
-            return self._q(fid, pl["l"], path_of(pl) + tuple(rest), acc)
+            return self._q(fid, pl["l"], path_of(pl, self.info(fid).consts) + tuple(rest), acc)
         c = op_const(o)
         if c is not None:
             if "fn" in c:
@@ -407,7 +427,7 @@ class Flow:
             return self._q_operand(fid, rv["o"], rest, acc)
         if k in ("ref", "rawptr"):
             p = rv["p"]
-            return self._q(fid, p["l"], path_of(p) + tuple(rest), acc)
+            return self._q(fid, p["l"], path_of(p, self.info(fid).consts) + tuple(rest), acc)
         if k == "agg":
             ak = rv.get("ak")
             ops = rv["ops"]
@@ -491,7 +511,7 @@ class Flow:
         if k == "discr":
             acc.add(("via", "discr"))
             p = rv["p"]
-            return self._q(fid, p["l"], path_of(p) + ("#d",), acc)
+            return self._q(fid, p["l"], path_of(p, self.info(fid).consts) + ("#d",), acc)
         if k == "repeat":
             r = list(rest)
             if r and r[0].startswith("["):
